@@ -2084,6 +2084,10 @@ class GaussianTimeFluxProfile(
             t1 = t1 * time_unit_conv_factor
             t2 = t2 * time_unit_conv_factor
 
+        # The profile is zero outside of its start and stop time.
+        t1 = np.clip(t1, self._t_start, self._t_stop)
+        t2 = np.clip(t2, self._t_start, self._t_stop)
+
         t0 = 0.5*(self._t_stop + self._t_start)
         sigma_t = self._sigma_t
 
